@@ -45,6 +45,90 @@ fn validator_summary(bp: &Blueprint) -> J {
     )
 }
 
+fn eval_hex(code: &str, args: &[uplc::PlutusData]) -> J {
+    let code = code.to_string();
+    let args = args.to_vec();
+    match guarded(move || {
+        let mut buffer = vec![];
+        let mut cbor = vec![];
+        let p = uplc::ast::Program::<uplc::ast::DeBruijn>::from_hex(&code, &mut cbor, &mut buffer).map_err(|e| format!("{e:?}"))?;
+        let mut p: uplc::ast::Program<uplc::ast::NamedDeBruijn> = p.into();
+        for a in &args {
+            p = p.apply_data(a.clone());
+        }
+        let r = p.eval_version(uplc::machine::cost_model::ExBudget::max(), &pallas_primitives::conway::Language::PlutusV3);
+        Ok::<J, String>(match &r.result {
+            Ok(t) => json!({"o": "val", "t": format!("{}", t.to_pretty()).chars().take(60).collect::<String>()}),
+            Err(e) => json!({"o": "fail", "e": format!("{e:?}").chars().take(80).collect::<String>()}),
+        })
+    }) {
+        Ok(Ok(j)) => j,
+        Ok(Err(e)) => json!({"o": "decode_error", "e": e}),
+        Err(p) => json!({"o": "panic", "msg": p}),
+    }
+}
+
+/// one history of apply / saveload operations on a fresh copy of the blueprint
+fn run_history(bp0: &Blueprint, h: &J, ctxs: &J) -> J {
+    let mut cur = bp0.clone();
+    let mut steps = vec![];
+    let mut applied: Vec<uplc::PlutusData> = vec![];
+    for op in h.as_array().cloned().unwrap_or_default() {
+        match op["op"].as_str().unwrap_or("") {
+            "apply" => {
+                let data = match data_from_json(&op["d"]) {
+                    Ok(d) => d,
+                    Err(e) => return json!({"harness_error": e}),
+                };
+                let mut next = cur.clone();
+                let r = guarded(|| next.apply_parameter(None, None, &data).map_err(|e| format!("{e:?}").chars().take(160).collect::<String>()));
+                match r {
+                    Ok(Ok(())) => {
+                        cur = next;
+                        applied.push(data);
+                        steps.push(json!({"r": "ok", "validators": validator_summary(&cur)}));
+                    }
+                    Ok(Err(e)) => steps.push(json!({"r": "err", "e": e, "validators": validator_summary(&cur)})),
+                    Err(p) => steps.push(json!({"r": "panic", "msg": p, "validators": validator_summary(&cur)})),
+                }
+            }
+            "saveload" => {
+                let r = guarded(|| {
+                    let s1 = serde_json::to_string_pretty(&cur).map_err(|e| e.to_string())?;
+                    let b2: Blueprint = serde_json::from_str(&s1).map_err(|e| e.to_string())?;
+                    Ok::<Blueprint, String>(b2)
+                });
+                match r {
+                    Ok(Ok(b2)) => {
+                        cur = b2;
+                        steps.push(json!({"r": "ok", "validators": validator_summary(&cur)}));
+                    }
+                    Ok(Err(e)) => steps.push(json!({"r": "err", "e": e, "validators": validator_summary(&cur)})),
+                    Err(p) => steps.push(json!({"r": "panic", "msg": p, "validators": validator_summary(&cur)})),
+                }
+            }
+            _ => {}
+        }
+    }
+    // behaviour once every parameter is applied: through the blueprint, and by plain application to the original code
+    let mut behaviour = json!({});
+    let all_applied = cur.validators.iter().all(|v| v.parameters.is_empty());
+    if all_applied {
+        let orig = validator_summary(bp0);
+        let fin = validator_summary(&cur);
+        for (name, ctx) in ctxs.as_object().cloned().unwrap_or_default() {
+            if let Ok(ctx) = data_from_json(&ctx) {
+                let code_fin = fin[0]["compiledCode"].as_str().unwrap_or("");
+                let code_orig = orig[0]["compiledCode"].as_str().unwrap_or("");
+                let mut args = applied.clone();
+                args.push(ctx.clone());
+                behaviour[name] = json!({"via_blueprint": eval_hex(code_fin, &[ctx]), "by_application": eval_hex(code_orig, &args)});
+            }
+        }
+    }
+    json!({"steps": steps, "behaviour": behaviour})
+}
+
 fn run_case(case: &J) -> J {
     let id = case["id"].clone();
     let dir = PathBuf::from(case["dir"].as_str().unwrap_or("/verif/work/bp/x"));
@@ -57,6 +141,13 @@ fn run_case(case: &J) -> J {
         Ok(Ok(bp)) => bp,
     };
     let mut out = json!({"id": id, "build": "ok", "blueprint": serde_json::to_value(&bp).unwrap_or(J::Null)});
+    if let Some(hs) = case["histories"].as_array() {
+        let mut hres = vec![];
+        for h in hs {
+            hres.push(run_history(&bp, h, &case["ctxs"]));
+        }
+        out["histories"] = J::Array(hres);
+    }
     let mut ops_out = vec![];
     for op in case["ops"].as_array().cloned().unwrap_or_default() {
         match op["op"].as_str().unwrap_or("") {
